@@ -437,10 +437,10 @@ def cases(chunk):
         if k % 3 == 2:
             pts = [[round(0.7 * i + rng.uniform(0, 0.3), 3), round(rng.uniform(0, 100), 3)] for i in range(N)]
             c = {"kind": "seg", "pts": pts, "glob": None, "mode": ["min", "max"][k % 2], "verbose": False}
-            c.update({"cost": "table", "table": cost_table(rng, N, fam)})
+            c.update({"cost": "table", "table": cost_table(rng, N, fam), "limit_x": 4})
             yield c
         else:
-            yield {"kind": "mat", "N": N, "upper": random_upper(rng, N, fam), "diag": None, "src": fam}
+            yield {"kind": "mat", "N": N, "upper": random_upper(rng, N, fam), "diag": None, "src": fam, "limit_x": 4}
     elif kind in ("seg", "osimp"):
         for i in range(chunk["n"]):
             n = rng.randint(3, 12)
